@@ -393,10 +393,15 @@ fn e2_history(srv: &Srv, cfg: &SrvCfg, order: &[u8], kill_by_error: bool, natura
         }
     }
     // end the stale transfer so that the server becomes quiescent quickly
+    // (only if it can still be open: a closed ephemeral port may belong to somebody else by now)
     if let Some(p1) = peer1 {
-        let _ = c1.sock.send_to(&rc::error(0, "end"), p1);
+        if !killed && (workers_alive() || cfg.single) {
+            let _ = c1.sock.send_to(&rc::error(0, "end"), p1);
+        }
     }
-    c1.to_peer(&rc::error(0, "end"));
+    if !completed && workers_alive() {
+        c1.to_peer(&rc::error(0, "end"));
+    }
     quiesce();
     let _ = std::fs::remove_file(&path);
     (viol, trace)
